@@ -14,7 +14,8 @@ Local Open Scope Z_scope.
 Section Streams.
 Context (ig : E.integ).
 Context {T : Type} (inj : term -> T) (teqb : T -> T -> bool).
-Context (H_teqb : forall a b, teqb (inj a) (inj b) = term_eqb a b).
+Context (ok : term -> Prop).
+Context (H_teqb : forall a b, ok a -> ok b -> teqb (inj a) (inj b) = term_eqb a b).
 Context (enc_spo : T -> Z -> pbval str -> TermEncoder SN -> outcome (list (pbval str)) * TermEncoder SN * pbval str).
 Context (enc_graph : T -> pbval str -> TermEncoder SN -> outcome (list (pbval str)) * TermEncoder SN * pbval str).
 Context (put : Z -> wterm -> pbval str -> pbval str).
@@ -24,6 +25,7 @@ Notation rmsg := (rmsg put).
 Notation Rf := (Rf rmsg).
 Notation GStream := (@Stream SN T).
 Notation rlist := (rlist inj).
+Notation rep_ok := (rep_ok ok).
 
 Definition tag_of_class (c : stream_class) : Stream_cls :=
   match c with TripleStream => K_TripleStream | QuadStream => K_QuadStream | GraphStream => K_GraphStream end.
@@ -48,7 +50,7 @@ Definition Ro (go : SerializerOptions SN) (o : soptions) : Prop :=
 Definition Rs (g : GStream) (m : stream) : Prop :=
   Stream_cls_tag SN g = tag_of_class (st_class m) /\
   st_integ m = ig /\
-  (st_failed m = false -> Rt (Stream_encoder SN g) (st_enc m) /\ Stream_repeated_terms SN g = rlist (st_rep m)) /\
+  (st_failed m = false -> Rt (Stream_encoder SN g) (st_enc m) /\ Stream_repeated_terms SN g = rlist (st_rep m) /\ rep_ok (st_rep m)) /\
   Ro (Stream_options SN g) (st_opts m) /\
   Rf (Stream_flow SN g) (st_flow m) /\
   Stream_enrolled SN g = st_enrolled m /\
@@ -150,56 +152,56 @@ Notation gen_triple := (Stream_triple SN teqb enc_spo).
 Notation gen_quad := (Stream_quad SN teqb enc_spo enc_graph).
 
 (* TripleStream.triple (GraphStream inherits it) *)
-Theorem source_stream_triple_is_model (terms : list term) g m : Rs g m -> st_class m <> QuadStream ->
+Theorem source_stream_triple_is_model (terms : list term) g m : Rs g m -> st_class m <> QuadStream -> Forall ok terms ->
   match gen_triple (map inj terms) g, stream_triple terms m with
   | (Val fr, g', _), (m', Ok mfr) => fr = option_map (frame_msg rmsg) mfr /\ Rs g' m'
   | (Exn _, g', _), (m', Err _) => Rs g' m'
   | _, _ => False
   end.
 Proof.
-  intros HR Hc. pose proof HR as (Ht & Hi & He & Ho & Hfl & Hen & Hf & Hst).
+  intros HR Hc Hok. pose proof HR as (Ht & Hi & He & Ho & Hfl & Hen & Hf & Hst).
   unfold Stream_triple, stream_triple. rewrite Ht.
   destruct (st_class m) eqn:Ec; [|contradiction|]; cbn [tag_of_class];
     (rewrite (tie_ensure_usable g m HR); unfold refuse;
      destruct (st_failed m) eqn:Ef; [exact HR|];
-     destruct (He eq_refl) as [HRt Hrep]; rewrite Hrep, Hi;
-     pose proof (source_encode_triple_is_model ig inj teqb H_teqb enc_spo put H_spo terms (st_rep m) (Stream_encoder SN g) (st_enc m) HRt) as H;
+     destruct (He eq_refl) as (HRt & Hrep & Hrok); rewrite Hrep, Hi;
+     pose proof (source_encode_triple_is_model ig inj teqb ok H_teqb enc_spo put H_spo terms (st_rep m) (Stream_encoder SN g) (st_enc m) HRt Hok Hrok) as H;
      destruct (encode_triple SN teqb enc_spo (map inj terms) (Stream_encoder SN g) (rlist (st_rep m))) as [[[[rows|e] terms'] ge'] rl'];
      destruct (E.encode_triple ig terms (st_enc m) (st_rep m)) as [[[t' rp'] mrows]|e']; try contradiction;
-     [ destruct H as (-> & HRt' & -> & _); ssimpl;
+     [ destruct H as (-> & HRt' & -> & _ & Hrok'); ssimpl;
        pose proof (Rf_extend rmsg _ _ mrows Hfl) as Hext;
        pose proof (source_frame_from_bounds_is_model rmsg _ _ Hext) as Hb;
        destruct (FrameFlow_frame_from_bounds SN (set_FrameFlow_data SN (FrameFlow_data (Stream_flow SN g) ++ map rmsg mrows) (Stream_flow SN g))) as [[fr|eb] gf'];
        destruct (frame_from_bounds (flow_extend (st_flow m) mrows)) as [mf' mfr]; [|contradiction];
        destruct Hb as [-> Hfl']; split; [reflexivity|]; unfold with_enc, Rs; ssimpl;
-       split; [rewrite Ht, Ec; reflexivity|]; split; [exact Hi|]; split; [intros _; split; [exact HRt' | reflexivity]|]; split; [exact Ho|];
+       split; [rewrite Ht, Ec; reflexivity|]; split; [exact Hi|]; split; [intros _; split; [exact HRt' | split; [reflexivity | exact Hrok']]|]; split; [exact Ho|];
        split; [exact Hfl'|]; split; [exact Hen|]; split; [first [exact Hf | rewrite Hf; first [exact Ef | symmetry; exact Ef | reflexivity]] | first [exact Hst | rewrite Hst, Ec; reflexivity]]
      | ssimpl; apply Rs_failed; exact HR ]).
 Qed.
 
 (* QuadStream.quad *)
-Theorem source_stream_quad_is_model (terms : list term) g m : Rs g m -> st_class m = QuadStream ->
+Theorem source_stream_quad_is_model (terms : list term) g m : Rs g m -> st_class m = QuadStream -> Forall ok terms ->
   match gen_quad (map inj terms) g, stream_quad terms m with
   | (Val fr, g', _), (m', Ok mfr) => fr = option_map (frame_msg rmsg) mfr /\ Rs g' m'
   | (Exn _, g', _), (m', Err _) => Rs g' m'
   | _, _ => False
   end.
 Proof.
-  intros HR Hc. pose proof HR as (Ht & Hi & He & Ho & Hfl & Hen & Hf & Hst).
+  intros HR Hc Hok. pose proof HR as (Ht & Hi & He & Ho & Hfl & Hen & Hf & Hst).
   unfold Stream_quad, stream_quad. rewrite Ht, Hc. cbn [tag_of_class].
   rewrite (tie_ensure_usable g m HR). unfold refuse.
   destruct (st_failed m) eqn:Ef; [exact HR|].
-  destruct (He eq_refl) as [HRt Hrep]. rewrite Hrep, Hi.
-  pose proof (source_encode_quad_is_model ig inj teqb H_teqb enc_spo enc_graph put H_spo H_graph terms (st_rep m) (Stream_encoder SN g) (st_enc m) HRt) as H.
+  destruct (He eq_refl) as (HRt & Hrep & Hrok). rewrite Hrep, Hi.
+  pose proof (source_encode_quad_is_model ig inj teqb ok H_teqb enc_spo enc_graph put H_spo H_graph terms (st_rep m) (Stream_encoder SN g) (st_enc m) HRt Hok Hrok) as H.
   destruct (encode_quad SN teqb enc_spo enc_graph (map inj terms) (Stream_encoder SN g) (rlist (st_rep m))) as [[[[rows|e] terms'] ge'] rl'];
     destruct (E.encode_quad ig terms (st_enc m) (st_rep m)) as [[[t' rp'] mrows]|e']; try contradiction.
-  - destruct H as (-> & HRt' & -> & _). ssimpl.
+  - destruct H as (-> & HRt' & -> & _ & Hrok'). ssimpl.
     pose proof (Rf_extend rmsg _ _ mrows Hfl) as Hext.
     pose proof (source_frame_from_bounds_is_model rmsg _ _ Hext) as Hb.
     destruct (FrameFlow_frame_from_bounds SN (set_FrameFlow_data SN (FrameFlow_data (Stream_flow SN g) ++ map rmsg mrows) (Stream_flow SN g))) as [[fr|eb] gf'];
       destruct (frame_from_bounds (flow_extend (st_flow m) mrows)) as [mf' mfr]; [|contradiction].
     destruct Hb as [-> Hfl']. split; [reflexivity|]. unfold with_enc, Rs. ssimpl.
-    split; [rewrite Ht, Hc; reflexivity|]. split; [exact Hi|]. split; [intros _; split; [exact HRt' | reflexivity]|]. split; [exact Ho|].
+    split; [rewrite Ht, Hc; reflexivity|]. split; [exact Hi|]. split; [intros _; split; [exact HRt' | split; [reflexivity | exact Hrok']]|]. split; [exact Ho|].
     split; [exact Hfl'|]. split; [exact Hen|]. split; [first [exact Hf | rewrite Hf; first [exact Ef | symmetry; exact Ef | reflexivity]] | first [exact Hst | rewrite Hst, Hc; reflexivity]].
   - ssimpl. apply Rs_failed. exact HR.
 Qed.
@@ -223,16 +225,17 @@ Notation gen_graph := (Stream_graph SN teqb enc_spo enc_graph).
 (* the frames it yields are the model's Emit events, in order; it ends normally exactly when the model does; the stream
    it leaves is the model's *)
 Theorem source_stream_graph_is_model (gid : term) (triples : list (list term)) g m : Rs g m -> st_class m = GraphStream ->
+  Forall (Forall ok) triples ->
   match gen_graph (inj gid) (map (map inj) triples) g, stream_graph gid triples m with
   | (r, g', _, ys), (m', evs, ok) =>
       Rs g' m' /\ ys = map (frame_msg rmsg) (emitted evs) /\ (match r with Val _ => ok = true | Exn _ => ok = false end)
   end.
 Proof.
-  intros HR Hc. pose proof HR as (Ht & Hi & He & Ho & Hfl & Hen & Hf & Hst).
+  intros HR Hc Hoks. pose proof HR as (Ht & Hi & He & Ho & Hfl & Hen & Hf & Hst).
   unfold Stream_graph, stream_graph. rewrite Ht, Hc. cbn [tag_of_class]. cbv zeta.
   rewrite (tie_ensure_usable g m HR).
   destruct (st_failed m) eqn:Ef; [split; [exact HR|]; split; reflexivity|].
-  destruct (He eq_refl) as [HRt Hrep].
+  destruct (He eq_refl) as (HRt & Hrep & Hrok).
   pose proof (source_start_statement_is_model (Stream_encoder SN g) (st_enc m) HRt) as H0.
   destruct (TermEncoder_start_statement SN (Stream_encoder SN g)) as [[u|e0] ge0]; [|contradiction].
   unfold E.encode_graph_start. rewrite Hi.
@@ -253,7 +256,7 @@ Proof.
   set (m1 := with_enc m t1 (st_rep m) (flow_extend (st_flow m) (mrows ++ [RGraphStart (Some w)]))).
   assert (HR1 : Rs g1 m1).
   { unfold g1, m1, with_enc, Rs. ssimpl.
-    split; [exact Ht|]. split; [exact Hi|]. split; [intros _; split; [exact HRt1 | exact Hrep]|]. split; [exact Ho|].
+    split; [exact Ht|]. split; [exact Hi|]. split; [intros _; split; [exact HRt1 | split; [exact Hrep | exact Hrok]]|]. split; [exact Ho|].
     split; [|split; [exact Hen|]; split; [rewrite Hf; symmetry; exact Ef | exact Hst]].
     replace (map rmsg mrows ++ [PMsg "RdfStreamRow" [("graph_start"%string, put 3 w (PMsg "RdfGraphStart" []))]])
       with (map rmsg (mrows ++ [RGraphStart (Some w)])) by (rewrite map_app; reflexivity).
@@ -262,16 +265,16 @@ Proof.
   (* the loop over the triples *)
   match goal with |- context [?f (map (map inj) triples) (g1, map (map inj) triples, @nil (pbval str))] => set (loop := f) end.
   assert (Hloop : forall (xs : list (list term)) (gx : GStream) (mx : stream) (gr : list (list T)) (ys : list (pbval str)),
-             Rs gx mx -> st_class mx = GraphStream ->
+             Rs gx mx -> st_class mx = GraphStream -> Forall (Forall ok) xs ->
              match loop (map (map inj) xs) (gx, gr, ys), graph_triples xs mx with
              | LContinue (g', _, ys'), (m', evs, true) => Rs g' m' /\ ys' = ys ++ map (frame_msg rmsg) (emitted evs) /\ st_class m' = GraphStream
              | LRaise _ (g', _, ys'), (m', evs, false) => Rs g' m' /\ ys' = ys ++ map (frame_msg rmsg) (emitted evs)
              | _, _ => False
              end).
-  { induction xs as [|tr xs IH]; intros gx mx gr ys HRx Hcx.
+  { induction xs as [|tr xs IH]; intros gx mx gr ys HRx Hcx Hxs.
     - cbn. split; [exact HRx|]. split; [rewrite app_nil_r; reflexivity | exact Hcx].
     - cbn [graph_triples map]. unfold loop at 1. fold loop. cbv beta iota.
-      pose proof (source_stream_triple_is_model tr gx mx HRx ltac:(rewrite Hcx; discriminate)) as Hstep.
+      pose proof (source_stream_triple_is_model tr gx mx HRx ltac:(rewrite Hcx; discriminate) (Forall_inv Hxs)) as Hstep.
       destruct (gen_triple (map inj tr) gx) as [[[fr|e] gx'] tr'];
         destruct (stream_triple tr mx) as [mx' [mfr|e']] eqn:Est; try contradiction.
       + destruct Hstep as [-> HRx'].
@@ -280,19 +283,19 @@ Proof.
           destruct (E.encode_triple (st_integ mx) tr (st_enc mx) (st_rep mx)) as [[[t' rp'] rws]|]; [|discriminate].
           destruct (frame_from_bounds (flow_extend (st_flow mx) rws)) as [fl fr0]. injection Est as <- _. exact Hcx. }
         destruct mfr as [f|]; cbn [option_map].
-        * specialize (IH gx' mx' gr (ys ++ [frame_msg rmsg f]) HRx' Hcx').
+        * specialize (IH gx' mx' gr (ys ++ [frame_msg rmsg f]) HRx' Hcx' (Forall_inv_tail Hxs)).
           destruct (loop (map (map inj) xs) (gx', gr, ys ++ [frame_msg rmsg f])) as [[[g' gr'] ys']|rv [[g' gr'] ys']|e [[g' gr'] ys']];
-            destruct (graph_triples xs mx') as [[m' evs] ok]; destruct ok; try contradiction.
+            destruct (graph_triples xs mx') as [[m' evs] okb]; destruct okb; try contradiction.
           -- destruct IH as (HR' & -> & Hc'). split; [exact HR'|]. split; [|exact Hc'].
              cbn [emit_opt app emitted map]. rewrite <- app_assoc. reflexivity.
           -- destruct IH as (HR' & ->). split; [exact HR'|]. cbn [emit_opt app emitted map]. rewrite <- app_assoc. reflexivity.
-        * specialize (IH gx' mx' gr ys HRx' Hcx').
+        * specialize (IH gx' mx' gr ys HRx' Hcx' (Forall_inv_tail Hxs)).
           destruct (loop (map (map inj) xs) (gx', gr, ys)) as [[[g' gr'] ys']|rv [[g' gr'] ys']|e [[g' gr'] ys']];
-            destruct (graph_triples xs mx') as [[m' evs] ok]; destruct ok; try contradiction; exact IH.
+            destruct (graph_triples xs mx') as [[m' evs] okb]; destruct okb; try contradiction; exact IH.
       + cbn. split; [exact Hstep | rewrite app_nil_r; reflexivity]. }
-  specialize (Hloop triples g1 m1 (map (map inj) triples) [] HR1 Hc1).
+  specialize (Hloop triples g1 m1 (map (map inj) triples) [] HR1 Hc1 Hoks).
   destruct (loop (map (map inj) triples) (g1, map (map inj) triples, [])) as [[[g2 gr2] ys2]|rv [[g2 gr2] ys2]|e [[g2 gr2] ys2]];
-    destruct (graph_triples triples m1) as [[m2 evs] ok]; destruct ok; try contradiction.
+    destruct (graph_triples triples m1) as [[m2 evs] okb]; destruct okb; try contradiction.
   - (* all triples accepted: the graph end, then a frame if the flow is full *)
     destruct Hloop as (HR2 & -> & Hc2). cbn [app].
     pose proof HR2 as (Ht2 & Hi2 & He2 & Ho2 & Hfl2 & Hen2 & Hf2 & Hst2).
@@ -341,7 +344,7 @@ Proof.
   pose proof (OptionsTie.source_stream_types_is_model (physical_type c) (fl_logical fl)) as Hst.
   destruct (StreamTypes___init__ (Z.of_N (physical_type c)) (Z.of_N (fl_logical fl))) as [st|e].
   - destruct Hst as (Hc & -> & _). rewrite Hc. cbn [negb].
-    unfold Rs. ssimpl. split; [reflexivity|]. split; [reflexivity|]. split; [intros _; split; [exact HRt | reflexivity]|].
+    unfold Rs. ssimpl. split; [reflexivity|]. split; [reflexivity|]. split; [intros _; split; [exact HRt | split; [reflexivity | repeat split]]|].
     split; [exact HRo|]. split; [exact HRf|]. split; [reflexivity|]. split; reflexivity.
   - rewrite Hst. exact I.
 Qed.
